@@ -452,6 +452,17 @@ def sibling_names_unique(prog, cg, eff, chk, rid):
                         if x[0] in ('call', 'callm') and isinstance(x[1], str) and is_subject(x) and \
                                 _is_title_lookup(prog, cg, eff, x[1].split('::')[-1]):
                             dependent = (seq, ty, x[1].split('::')[-1])
+            if probes and not dependent:
+                # the look-up written as a statement of its own: the throw that follows the probing read, before any
+                # other read, tests its result
+                for rd in probes:
+                    later = sorted([r.seq for r in ip.reads if r.seq > rd.seq] + [first_write])
+                    for (seq, ty, node, fn, conds) in ip.throws:
+                        if rd.seq < seq < later[0] and any(
+                                (x[0] == 'op' and isinstance(x[1], str) and x[1].startswith('sql:')) or
+                                (x[0] == 'loc' and (x[1] or '').lower() in ('crate', 'list', 'playlist'))
+                                for c in conds for x in _flat(c)):
+                            dependent = (seq, ty, 'a statement of its own')
             if probes and dependent:
                 chk.ok(rid, inst + ': looked up through %s before the first write, throws %s' % (
                     dependent[2], dependent[1].split('::')[-1]), probes[0].loc)
